@@ -262,6 +262,10 @@ def extra_oracles(rng, tier):
             out.append(Violation("c19-pop-hook", "add_after_request(f); pop_after_request(f)",
                                  "removing a registered hook raised %r" % (err,)))
         ok = ok and app.before == (b,) and app.after == (a,)
+        # the deprecated decorator spellings
+        b3, a3 = RC.hook_before(109), RC.hook_after(110)
+        r1, r2 = app.before_request()(b3), app.after_request()(a3)
+        ok = ok and app.before == (b, b3) and app.after == (a, a3) and r1 is b3 and r2 is a3
     if not ok:
         out.append(Violation("c19-decorators", "decorator/alias forms", "decorator or deprecated alias registered differently"))
     return out, {"evaluations": 12, "distinct_nontrivial": 12}
